@@ -107,7 +107,7 @@ func main() {
 	}
 	if len(cases) == 0 {
 		cases = append(cases, corpus()...)
-		n := o.Count(400, 8000)
+		n := o.Count(400, 6000)
 		for i := 0; i < n; i++ {
 			label := fmt.Sprintf("gen-%d-%d", o.Seed, i)
 			cases = append(cases, genCase(r.Fork(label), label, i%3 == 2))
